@@ -10,6 +10,14 @@ CLAIMED = {
          "Every one of the ~5200 obligations (each knownMsgNums key, each _fields row, each constructor value, each container member, all 256 base-type bytes, all 512 types.Fit codes) is enumerated from the source and discharged; the space is finite and visible in the source, so exhaustive enumeration is a proof of the table-level statement.",
          "Trusted: go/types; the independent FIT base-type table in checker/c15.go; the SSA transfer functions of checker/eval.go; documented reflect panic conditions. Not decided: agreement of field numbers with SDK 21.115 (workbook not in the repository).",
          "DESIGN.md 4 C15"),
+ "C20": ("proof", "shape matching of all generated String methods (3 stringer shapes) + decoding of their constant tables, compared with the package's constants from go/types",
+         "For each of the 176 generated String methods the relation value->substring denoted by the tables is computed for the complete table domain and compared with every constant of the type; the fall-through arm and case-range disjointness cover all remaining values of the type, so the statement is decided for every value, not a sample.",
+         "Trusted: go/types constant values; Go semantics of switch/slice/map lookup; strconv.FormatInt. A String method that matches none of the three shapes is reported as undecided (fail closed). Not decided: byte identity with the stringer's output (needs the generator to run).",
+         "DESIGN.md 4 C20"),
+ "C03": ("proof", "AST/type shape proof over the 17 routers, File.add, File.init, accessors and Encode's switch + SSA dominance for the decoder's add sites",
+         "Routing is a finite structure fully visible in syntax and types: 17 containers, 64 arms, 17 file-type pairings. All are enumerated and each arm/pairing is discharged, which settles the statement for every file-type value and every interleaving because no arm reads state other than its own slot.",
+         "Trusted: Go semantics of type switch/append/assignment; the paper argument in DESIGN.md C03 that obligations 1-6 imply the statement; matcher accepts exactly two arm statements, anything else is undecided (fail closed).",
+         "DESIGN.md 4 C03"),
 }
 
 NOT_APPLICABLE = {
